@@ -329,3 +329,144 @@ def _check_views(b, ctx, e, limits, step, proxies, replay):
 def perms(n):
     import itertools
     return list(itertools.permutations(range(n)))
+
+
+# ---------------------------------------------------------------- histories with per-step oracles
+class History:
+    """Runs operations on a Broker; after each one (at points not already covered by an earlier path with the same
+    decision prefix) evaluates the enabled oracles on the views served before and after the operation."""
+
+    def __init__(self, b, ctx, e, limits=(0, 1), oracles=('partition',), proxies=None):
+        self.b = b; self.ctx = ctx; self.e = e; self.limits = limits; self.oracles = oracles
+        self.ops = 0; self.proxies = proxies; self.log = []
+
+    def snapshot(self):
+        """all per-proxy views (every registered address x limits) + global epoch of the current store"""
+        b = self.b
+        out = {'global': b.global_epoch_cell().v, 'views': {}}
+        for addr in b.proxy_addresses():
+            for limit in self.limits:
+                out['views'][(addr, limit)] = b.view_proxy(addr, limit)
+        return out
+
+    def step(self, name, fn, expect=None):
+        b, e, ctx = self.b, self.e, self.ctx
+        need_pre = 'epoch' in self.oracles or 'unchanged-on-error' in self.oracles
+        pre_store = clone(b.store.v) if need_pre else None
+        r = fn()
+        self.ops += 1
+        self.log.append(name)
+        if not ctx.fresh_point(e): return r
+        rp = (lambda m: b.replay_spec(m, self.oracles, self.limits)) if b.oplog is not None else None
+        def checks():
+            ok = True
+            if 'partition' in self.oracles:
+                ok &= _check_views(b, ctx, e, self.limits, name, self.proxies, rp)
+            if 'epoch' in self.oracles:
+                post = self.snapshot()
+                cur = b.store.v; b.store.v = pre_store
+                try: pre = self.snapshot()
+                finally: b.store.v = cur
+                ok &= epoch_oracle(b, ctx, e, pre, post, name, self.log, rp)
+            if 'metadata' in self.oracles:
+                ok &= metadata_oracle(b, ctx, e, name, self.log, rp)
+            return ok
+        e.sub_explore(checks)
+        return r
+
+
+def proxy_view_fields_equal_except_epoch(b, p, q):
+    names = b.src.structs['Proxy']
+    conds = []
+    for i, n in enumerate(names):
+        if n == 'epoch': continue
+        conds.append(veq(p.f[i].v, q.f[i].v))
+    return zand(conds)
+
+
+def epoch_oracle(b, ctx, e, pre, post, step, log, rp=None):
+    """C04: global epoch never decreases; per-proxy served epoch never decreases and strictly increases when
+    anything else in the served view differs"""
+    items = []
+    items.append(('global-epoch-monotonic', 'C04/global-epoch-decreased', z3.ULE(bv(pre['global']), bv(post['global'])),
+                  lambda m: {'step': step, 'history': list(log), 'before': concretize(pre['global'], m), 'after': concretize(post['global'], m)}))
+    ei = b.src.field_index('Proxy', 'epoch')
+    for key, pv in pre['views'].items():
+        qv = post['views'].get(key)
+        if pv is None or qv is None: continue
+        ep, eq = pv.f[ei].v, qv.f[ei].v
+        same = proxy_view_fields_equal_except_epoch(b, pv, qv)
+        def wit(m, key=key, pv=pv, qv=qv):
+            return {'step': step, 'history': list(log), 'proxy': key[0], 'limit': key[1],
+                    'epoch_before': concretize(ep, m) if False else concretize(pv.f[ei].v, m), 'epoch_after': concretize(qv.f[ei].v, m),
+                    'view_before': concretize(pv, m), 'view_after': concretize(qv, m)}
+        items.append(('served-epoch-monotonic', 'C04/served-epoch-decreased', z3.ULE(bv(ep), bv(eq)), wit))
+        items.append(('view-changed-implies-epoch-increased', 'C04/view-changed-without-newer-epoch',
+                      zor([same, z3.ULT(bv(ep), bv(eq))]), wit))
+    return ctx.require_all(e, items, replay=rp)
+
+
+def metadata_oracle(b, ctx, e, step, log, rp=None):
+    """C12: the broker's own consistency check passes and membership / free pool are complements"""
+    r = b.call('check')
+    items = [('check_metadata', 'C12/check-metadata-failed', r.variant == 0, lambda m: {'step': step, 'history': list(log), 'store': concretize(b.mstore(), m)})]
+    return ctx.require_all(e, items, replay=rp)
+
+
+# ---------------------------------------------------------------- native replay support
+READ_ONLY = ('get_', 'check')
+
+
+def to_serde(src, v, m=None):
+    """interpreter value -> the serde_json representation the real types (de)serialize with"""
+    if isinstance(v, Ref): return to_serde(src, v.cell.v, m)
+    if is_sym(v):
+        if m is None: raise Unmodelled('symbolic value without model in to_serde')
+        r = m.eval(v, model_completion=True)
+        return z3.is_true(r) if z3.is_bool(r) else r.as_long()
+    if isinstance(v, (bool, int)) or v is None: return v
+    if isinstance(v, RStr):
+        if isinstance(v.s, str): return v.s
+        return ''.join(p if isinstance(p, str) else str(to_serde(src, p.v, m)) for p in v.s)
+    if isinstance(v, Enum):
+        if v.name == 'Option': return None if v.variant == 0 else to_serde(src, v.f[0].v, m)
+        if v.name == 'CompressionStrategy': return ['disabled', 'set_get_only', 'allow_all'][v.variant]
+        vn = src.enums[v.name][v.variant]
+        if not v.f: return vn
+        if len(v.f) == 1: return {vn: to_serde(src, v.f[0].v, m)}
+        return {vn: [to_serde(src, c.v, m) for c in v.f]}
+    if isinstance(v, Struct):
+        if v.name in ('[]', '()'): return [to_serde(src, c.v, m) for c in v.f]
+        names = src.structs.get(v.name)
+        if names is not None and len(names) == len(v.f):
+            return {n: to_serde(src, c.v, m) for n, c in zip(names, v.f)}
+        if len(v.f) == 1: return to_serde(src, v.f[0].v, m)
+        return [to_serde(src, c.v, m) for c in v.f]
+    if isinstance(v, RVec): return [to_serde(src, c.v, m) for c in v.cells]
+    if isinstance(v, SliceRef): return [to_serde(src, c.v, m) for c in v.vec.cells]
+    if isinstance(v, RMap): return {str(to_serde(src, k, m)): to_serde(src, c.v, m) for k, c in v.items}
+    if isinstance(v, RSet): return [to_serde(src, k, m) for k in v.items]
+    raise Unmodelled('to_serde of %r' % (v,))
+
+
+def _broker_call(self, meth, *args):
+    if not meth.startswith(READ_ONLY) and getattr(self, 'oplog', None) is not None:
+        self.oplog.append((meth, [clone(a) for a in args]))
+    return self.e.run_func(self.fn('MetaStore', meth), [Ref(self.store)] + list(args))
+
+
+def _mark_initial(self):
+    """remember the (symbolic) store from which the recorded operation history starts"""
+    self.initial = clone(self.store.v); self.oplog = []
+
+
+def _replay_spec(self, m, oracles, limits):
+    return {'kind': 'broker',
+            'spec': {'store': to_serde(self.src, self.initial, m), 'cluster': self.cluster, 'limits': list(limits), 'oracles': list(oracles),
+                     'ops': [{'op': meth, 'args': [to_serde(self.src, a, m) for a in args]} for meth, args in self.oplog]}}
+
+
+Broker.call = _broker_call
+Broker.mark_initial = _mark_initial
+Broker.replay_spec = _replay_spec
+Broker.oplog = None
